@@ -1,4 +1,4 @@
-From Coq Require Import ZArith List Bool Lia.
-From FV Require Import Generated.Consts C12.Spec C12.Model.
-Import ListNotations.
-Open Scope Z_scope.
+(* C12 — the lemmas live in ListZ.v (lists indexed by Z), DequeProofs.v (ring buffer ->
+   plain list, capacity invariant) and QueueProofs.v (block queue -> FIFO list, schedules
+   of the mutex-protected queue); this file gathers them for Properties.v. *)
+From FV Require Export C12.ListZ C12.DequeProofs C12.QueueProofs.
